@@ -869,4 +869,26 @@ def canonElems : List (List Part) → Bool
   | e :: es => canon e && canonElems es
 end
 
+/-- bash's `expand_seqterm` accepts the text of this sequence node with the parameters that
+    `bracesSeqRec` computes (same kind, endpoints, padding width and step). -/
+def seqAgree (elems : List Word) : Bool :=
+  match seqTerm (joinSep dots (renderElems elems)), seqParams elems with
+  | some s, some sp =>
+    s.chars == sp.chars && s.from == sp.from && s.to == sp.to && s.width == sp.width &&
+      s.step == idealStep (seqRaw elems)
+  | _, _ => false
+
+mutual
+/-- Every sequence node of the tree satisfies `seqAgree`. -/
+def seqsAgreePart : Part → Bool
+  | .lit _ => true
+  | .brace seq elems => if seq then seqAgree elems else seqsAgreeElems elems
+def seqsAgree : List Part → Bool
+  | [] => true
+  | p :: ps => seqsAgreePart p && seqsAgree ps
+def seqsAgreeElems : List (List Part) → Bool
+  | [] => true
+  | e :: es => seqsAgree e && seqsAgreeElems es
+end
+
 end ShVerif.C16
